@@ -70,8 +70,8 @@ def check(run, prog, tier):
     sub = report.Run("C01", tier, run.seed, quiet=True)
     C01.check(sub, prog, tier)
     for o in sub.obs:
-        if o.rule == "L5" or ":guard[" in o.construct:
-            continue  # the datagram loop and the rejection of malformed headers are not part of this property
+        if o.rule == "L5" or ":guard[" in o.construct or o.construct.endswith(":specification-values"):
+            continue  # the datagram loop, the rejection of malformed headers and the specification's byte values are not part of this property
         run.ob("D3", o.construct, o.ok, o.loc, o.msg, o.detail, o.nontrivial)
     run.paths += sub.paths
     run.abstract_cases += sub.abstract_cases
